@@ -19,7 +19,9 @@ CODES = {1: "ABMF answer differs from the model", 2: "stored balances differ fro
 KNOWN_KEYS = {31: "C07/int64-overflow"}
 
 COSTS = ["1", "2", "7", "007", "1000", "0", "", ".", "abc", "-3", "+5", "1.5", "0.5", "2.50", "1.0000000000", "99999999999999999999",
-         "4294967296", "4294967295", "65536", "3.", ".5", "1..2", "12a", " 7", "1e3", "00", "-0", "3000000000", "1.0000000000000000000"]
+         "4294967296", "4294967295", "65536", "3.", ".5", "1..2", "12a", " 7", "1e3", "00", "-0", "3000000000", "1.0000000000000000000",
+         # digit strings that another radix or literal syntax would read differently (decimal only: strconv.Atoi)
+         "010", "0.25", "0.8", "0.09", "08", "0x10", "1_0", "0b11", "0o17", "0.010", "42949672.96"]
 
 
 def coq_list(xs):
